@@ -187,6 +187,7 @@ type Probe struct {
 	Flags int    `json:"flags,omitempty"`
 	SPort int    `json:"sport,omitempty"` // tcp/udp source port (udp: 0 = 40000+src)
 	PLen  int    `json:"plen,omitempty"`  // udp/icmp: payload bytes = PLen-1 when > 0 (0 = 4 bytes)
+	Dst   int    `json:"dst,omitempty"`   // index of the sensor address probed (sensorIPs)
 }
 
 func (p Probe) payload() []byte {
@@ -221,10 +222,16 @@ type SObs struct {
 const tickMs = 5000
 
 var dstMac = net.HardwareAddr{2, 0, 0, 0, 0, 0xff}
-var dstIP = net.IPv4(127, 0, 0, 1).To4()
 
-func srcMac(i int) net.HardwareAddr { return net.HardwareAddr{2, 0, 0, 0, 0, byte(1 + i)} }
-func srcIP(i int) net.IP            { return net.IPv4(10, 0, 0, byte(1+i)).To4() }
+// source i: 02:00:00:00:00:01 + i, 10.0.0.1 + i (as numbers, like Model.src_mac / src_ip)
+func srcMac(i int) net.HardwareAddr {
+	v := uint64(0x020000000001) + uint64(i)
+	return net.HardwareAddr{byte(v >> 40), byte(v >> 32), byte(v >> 24), byte(v >> 16), byte(v >> 8), byte(v)}
+}
+func srcIP(i int) net.IP {
+	v := uint32(0x0a000001) + uint32(i)
+	return net.IPv4(byte(v>>24), byte(v>>16), byte(v>>8), byte(v)).To4()
+}
 
 func frame(p Probe) []byte {
 	var l4 []byte
@@ -266,7 +273,7 @@ func frame(p Probe) []byte {
 	ip[8] = 64
 	ip[9] = proto
 	copy(ip[12:], srcIP(p.Src))
-	copy(ip[16:], dstIP)
+	copy(ip[16:], sensorIPs[p.Dst][:])
 	eth := make([]byte, 14)
 	copy(eth[0:], dstMac)
 	copy(eth[6:], srcMac(p.Src))
@@ -284,6 +291,17 @@ type recorder struct {
 	cond *sync.Cond
 	udp  int
 	scan []recEv
+	// a slow pusher: the first portscan event is recorded, announced on entered, and its Send
+	// returns only when gate is closed
+	gate    chan struct{}
+	entered chan struct{}
+	gated   bool
+}
+
+func (r *recorder) udpCount() int {
+	r.mu.Lock()
+	defer r.mu.Unlock()
+	return r.udp
 }
 
 func newRecorder() *recorder {
@@ -294,6 +312,13 @@ func newRecorder() *recorder {
 
 func (r *recorder) Send(e event.Event) {
 	cat := e.Get("category")
+	hold := false
+	defer func() {
+		if hold {
+			close(r.entered)
+			<-r.gate
+		}
+	}()
 	r.mu.Lock()
 	defer r.mu.Unlock()
 	switch cat {
@@ -313,6 +338,10 @@ func (r *recorder) Send(e event.Event) {
 			return true
 		})
 		r.scan = append(r.scan, recEv{at: time.Now(), ev: ev})
+		if r.gate != nil && !r.gated {
+			r.gated = true
+			hold = true
+		}
 	}
 }
 
@@ -520,26 +549,34 @@ func kindN(p string) int {
 	return 2
 }
 
+func coqEv(e Ev) string {
+	var pp []string
+	for _, s := range e.Ports {
+		pp = append(pp, coqPort(s))
+	}
+	return fmt.Sprintf("E %d %d %d %d %s", macN(e.SMac), macN(e.DMac), ipN(e.SIP), ipN(e.DIP), hx.CoqList(pp, "(N*N)"))
+}
+
 func coqTicks(ob SObs) string {
 	var ts []string
 	for _, t := range ob.Ticks {
 		var es []string
 		for _, e := range t {
-			var pp []string
-			for _, s := range e.Ports {
-				pp = append(pp, coqPort(s))
-			}
-			es = append(es, fmt.Sprintf("E %d %d %d %d %s", macN(e.SMac), macN(e.DMac), ipN(e.SIP), ipN(e.DIP), hx.CoqList(pp, "(N*N)")))
+			es = append(es, coqEv(e))
 		}
 		ts = append(ts, hx.CoqList(es, "ev"))
 	}
 	return hx.CoqList(ts, "(list ev)")
 }
 
+func coqProbe(p Probe) string {
+	return fmt.Sprintf("P %d %d %d %d %d", p.Src, kindN(p.Proto), p.Port, p.Flags, p.Dst)
+}
+
 func scanCoq(id int, in SInput, ob SObs) string {
 	var ps []string
 	for _, p := range in.Probes {
-		ps = append(ps, fmt.Sprintf("P %d %d %d %d", p.Src, kindN(p.Proto), p.Port, p.Flags))
+		ps = append(ps, coqProbe(p))
 	}
 	ticks := coqTicks(ob)
 	live := "false"
@@ -616,6 +653,13 @@ func scanInputs(r *hx.Rand, tier string) []SInput {
 		SInput{Probes: []Probe{icmp(0), udp(0, 7), syn(0, 80, 20001), udp(0, 7), icmp(0)}, Ticks: T},
 		SInput{Probes: []Probe{udp(0, 1), udp(1, 2), udp(2, 3), udp(3, 4), icmp(0), icmp(1), icmp(2), icmp(3)}, Ticks: T},
 	)
+	// one source probing two / three sensor addresses (same hardware address) in one window
+	at := func(p Probe, d int) Probe { p.Dst = d; return p }
+	ins = append(ins,
+		SInput{Probes: []Probe{at(udp(0, 7), 0), at(udp(0, 9), 0), at(udp(0, 9), 1), at(udp(0, 69), 1), at(udp(0, 7), 0)}, Ticks: T},
+		SInput{Probes: []Probe{at(syn(0, 80, 20001), 1), at(syn(0, 443, 20002), 2), at(syn(0, 80, 20003), 2), at(icmp(0), 0), at(icmp(0), 2),
+			at(udp(1, 5), 2), at(udp(1, 5), 1), at(udp(1, 5), 0)}, Ticks: T},
+	)
 	// one source, 150 probes over 120 distinct ports (the Count > 100 branch), and 101 probes of one port
 	var big, same []Probe
 	for i := 0; i < 150; i++ {
@@ -633,6 +677,9 @@ func scanInputs(r *hx.Rand, tier string) []SInput {
 		{{udp(0, 5), icmp(0), udp(0, 5)}, {icmp(1), udp(1, 6)}},
 		{{udp(0, 1)}, {udp(1, 1)}, {udp(2, 1)}, {udp(3, 1)}},
 		{{syn(0, 80, 20001), udp(0, 80)}, {syn(1, 80, 20001), icmp(1)}},
+		// the same source against two addresses: the two bursts interleaved in every order
+		{{at(udp(0, 1000), 0), at(udp(0, 1001), 0)}, {at(udp(0, 1000), 1), at(udp(0, 7), 1)}},
+		{{at(icmp(0), 0), at(syn(0, 80, 20001), 0)}, {at(icmp(0), 2), at(syn(0, 81, 20002), 2)}, {at(udp(1, 9), 1)}},
 	}
 	if tier != "quick" {
 		shapes = append(shapes,
@@ -661,13 +708,16 @@ func scanInputs(r *hx.Rand, tier string) []SInput {
 		var ps []Probe
 		for j := 0; j < total; j++ {
 			sidx := r.Intn(ns)
+			dst := r.Intn(1 + i%len(sensorIPs))
 			if protoOf[sidx] == "udp" {
 				p := udp(sidx, udpPorts[r.Intn(len(udpPorts))])
+				p.Dst = dst
 				p.SPort = r.PickInt([]int{0, 53, 5060, 40001})
 				p.PLen = r.PickInt([]int{0, 1, 9})
 				ps = append(ps, p)
 			} else {
 				p := icmp(sidx)
+				p.Dst = dst
 				p.PLen = r.PickInt([]int{0, 1, 2})
 				ps = append(ps, p)
 			}
@@ -689,8 +739,12 @@ func scanInputs(r *hx.Rand, tier string) []SInput {
 		}
 		var ps []Probe
 		sport := 0
+		nd := r.PickInt([]int{1, 2, 2, 3, 3}) // sensor addresses probed in this window
+		d0 := r.Intn(len(sensorIPs))
 		for j := 0; j < total; j++ {
-			ps = append(ps, genProbe(r, r.Intn(ns), &sport))
+			p := genProbe(r, r.Intn(ns), &sport)
+			p.Dst = (d0 + r.Intn(nd)) % len(sensorIPs)
+			ps = append(ps, p)
 		}
 		ins = append(ins, SInput{Probes: ps, Ticks: T})
 	}
@@ -705,9 +759,14 @@ func distScan(dist map[string]int, in SInput, ob SObs) {
 		dist["probe:"+p.Proto]++
 		if p.Proto != "tcp" {
 			g := p.Proto
-			groups[fmt.Sprintf("%d/%s", p.Src, g)] = true
+			groups[fmt.Sprintf("%d/%d/%s", p.Src, p.Dst, g)] = true
 		}
 	}
+	dsts := map[int]bool{}
+	for _, p := range in.Probes {
+		dsts[p.Dst] = true
+	}
+	dist[fmt.Sprintf("sensor-addresses-probed:%d", len(dsts))]++
 	dist[fmt.Sprintf("sources:%d", len(srcs))]++
 	if in.Live {
 		dist["through-receive-loop"]++
@@ -735,6 +794,7 @@ func distScan(dist map[string]int, in SInput, ob SObs) {
 }
 
 func main() {
+	enterNetns()
 	o := hx.ParseArgs()
 	r := hx.NewRand(o.Seed)
 
@@ -744,11 +804,17 @@ func main() {
 			NOps   int     `json:"nops"`
 			Probes []Probe `json:"probes"`
 			Frames []hx.B  `json:"frames"`
+			Queue  bool    `json:"queue"`
 		}
 		if err := hx.LoadReplay(o.Only, &probe); err != nil {
 			hx.Fatal("replay: %v", err)
 		}
-		if len(probe.Frames) > 0 {
+		if probe.Queue {
+			var in QInput
+			hx.LoadReplay(o.Only, &in)
+			ob, crash := runQueueRetry(in)
+			hx.Write(o, "C20", "queue", queueHeader, "qcase", []hx.Case{{ID: 0, Kind: "queue", Input: in, Obs: ob, Crash: crash, Coq: queueCoq(0, in, ob)}}, map[string]int{"replay": 1}, nil, 8)
+		} else if len(probe.Frames) > 0 {
 			var in FInput
 			hx.LoadReplay(o.Only, &in)
 			if in.Ticks == 0 {
@@ -795,6 +861,22 @@ func main() {
 		}
 		wg.Wait()
 		close(frameDone)
+	}()
+	qins := queueInputs(r, o.Tier)
+	qobs := make([]QObs, len(qins))
+	qcr := make([]string, len(qins))
+	queueDone := make(chan struct{})
+	go func() {
+		var wg sync.WaitGroup
+		for i := range qins {
+			wg.Add(1)
+			go func(i int) {
+				defer wg.Done()
+				qobs[i], qcr[i] = runQueueRetry(qins[i])
+			}(i)
+		}
+		wg.Wait()
+		close(queueDone)
 	}()
 	scanDone := make(chan struct{})
 	go func() {
@@ -848,7 +930,7 @@ func main() {
 		}
 		scases = append(scases, hx.Case{ID: i, Kind: kind, Input: in, Obs: sobs[i], Crash: scr[i], Coq: scanCoq(i, in, sobs[i])})
 	}
-	hx.Write(o, "C20", "scan", scanHeader, "scase", scases, sdist, nil, (len(scases)+11)/12)
+	hx.Write(o, "C20", "scan", scanHeader, "scase", scases, sdist, nil, (len(scases)+3)/4)
 
 	<-frameDone
 	fdist := map[string]int{}
@@ -862,7 +944,17 @@ func main() {
 		fdist["events:"+in.Class] += n
 		fcases = append(fcases, hx.Case{ID: i, Kind: "frames", Input: in, Obs: fobs[i], Crash: fcr[i], Coq: frameCoq(i, in, fobs[i])})
 	}
-	hx.Write(o, "C20", "frame", frameHeader, "fcase", fcases, fdist, nil, 1)
+	hx.Write(o, "C20", "frame", frameHeader, "fcase", fcases, fdist, nil, 2)
+
+	<-queueDone
+	qdist := map[string]int{}
+	var qcases []hx.Case
+	for i, in := range qins {
+		qdist["burst:"+in.Class]++
+		qdist["senders-blocked-on-full-queue"] += qobs[i].Blocked
+		qcases = append(qcases, hx.Case{ID: i, Kind: "queue", Input: in, Obs: qobs[i], Crash: qcr[i], Coq: queueCoq(i, in, qobs[i])})
+	}
+	hx.Write(o, "C20", "queue", queueHeader, "qcase", qcases, qdist, nil, (len(qcases)+2)/3)
 }
 
 const usetHeader = "From HT Require Import Common.Bytes C20.Model C20.Check.\nImport C20.Check.U."
